@@ -630,6 +630,7 @@ pub fn pred_c11(s: &Session) -> String {
         // independent bookkeeping of the raw writer's current chunk fill
         let mut fill = 0usize;
         let mut dead = false;
+        let mut accepted_after_drop = 0usize;
         for (i, st) in s.steps.iter().enumerate() {
             if Some(i) == writer_drop_at {
                 break;
@@ -646,12 +647,19 @@ pub fn pred_c11(s: &Session) -> String {
                 if (is_f || is_gf) && st.obs != Obs::Err {
                     return format!("FAIL:flush succeeded after the body was dropped (step {})", i);
                 }
+                // "any chunk-completing write returns an error … instead of the writer buffering
+                // without bound": which writes complete a chunk is the writer's own business (how
+                // it cuts frames is not fixed by any property), so the rule is stated on what can
+                // be seen from outside — once the body is gone the writer never again takes in a
+                // whole chunk's worth of bytes (it would have had to complete a chunk for that)
                 if is_w && s.level == 0 {
-                    let completes = st.input.len() >= s.cap - fill;
-                    if completes && st.obs != Obs::Err {
+                    if let Obs::Wrote(n) = st.obs {
+                        accepted_after_drop += n;
+                    }
+                    if accepted_after_drop >= s.cap {
                         return format!(
-                            "FAIL:chunk-completing write succeeded after the body was dropped (step {})",
-                            i
+                            "FAIL:{} bytes accepted after the body was dropped (chunk size {}): a chunk must have been completed without the writer being told (step {})",
+                            accepted_after_drop, s.cap, i
                         );
                     }
                 }
